@@ -223,7 +223,13 @@ def queries_for(pid):
                     c, s_ = d.get(keyf(i), (0, 0)); d[keyf(i)] = (c + 1, s_ + S[i])
                 return [[str(a), str(c), str(s_)] for a, (c, s_) in d.items()]
             return f
+        def counts_only(v, k):
+            d = {}
+            for i in v:
+                d[S[i]] = d.get(S[i], 0) + 1
+            return [[str(c)] for c in d.values()]
         return [('size, count(*), sum(size) from R0 group by size', grp(size), False),
+                ('count(*) from R0 group by size', counts_only, False),
                 ('length(name), count(*), sum(size) from R0 group by length(name)', grp(lambda i: len(N[i])), False),
                 ('size, count(*), sum(size) from R0 group by size order by sum(size) desc, size', lambda v, k: sorted(grp(size)(v, k), key=lambda r: (-int(r[2]), int(r[0]))), True)]
     if pid == 'C15':
